@@ -21,7 +21,7 @@ if HERE not in sys.path:
     sys.path.insert(0, HERE)
 
 WORKERS = int(os.environ.get("VERIF_WORKERS", "16"))
-WALL = {"quick": 240.0, "thorough": 2400.0}
+WALL = {"quick": 240.0, "thorough": 3600.0}
 
 
 def _load(prop_id: str):
@@ -38,12 +38,16 @@ def _worker(args):
         from harness import core, findings
 
         mod = _load(prop_id)
-        col = core.Collector(prop_id, deadline=time.monotonic() + deadline_in,
-                             known=findings.matcher(prop_id))
+        # `deadline_in` is an absolute CLOCK_MONOTONIC instant (system-wide, shared by the forked workers):
+        # the wall-clock budget is for the whole check, not per shard
+        col = core.Collector(prop_id, deadline=deadline_in, known=findings.matcher(prop_id))
         if shard.get("kind") == "__replay__":
             for item in shard["cases"]:
                 col.ev()
                 mod.replay(item["clause"], item["case"], col)
+        elif shard.get("cg"):
+            from harness import cg
+            cg.run_cg(prop_id, shard, col, deadline_in)
         else:
             mod.run_shard(shard, col)
         return col.dump()
@@ -116,10 +120,12 @@ def main(argv=None):
     # ---- plan ----------------------------------------------------------------------------
     wall = float(os.environ.get("VERIF_WALL_S", WALL[a.tier]))
     shards = list(mod.plan(a.tier, seed))
+    if a.tier == "thorough" and callable(getattr(mod, "cg_plan", None)) and not os.environ.get("VERIF_NO_CG"):
+        shards = list(mod.cg_plan(seed)) + shards  # coverage-guided shards (harness/cg.py) first: they are the longest
     rep = _replay_items(prop_id)
     if rep:
         shards.insert(0, {"kind": "__replay__", "cases": rep})
-    jobs = [(prop_id, s, wall) for s in shards]
+    jobs = [(prop_id, s, time.monotonic() + wall) for s in shards]
     ctx = mp.get_context("fork")
     dumps = []
     with ctx.Pool(min(WORKERS, max(1, len(jobs))), maxtasksperchild=1) as pool:
